@@ -205,6 +205,17 @@ func Run(s *kernel.Sim) *World {
 	w.Dir = dir
 	defer os.RemoveAll(dir)
 	kek := dbworld.NewKEK(0)
+	if t.Bool(1, 5) {
+		// the configured path is a (relative) symbolic link to a database
+		// that lives elsewhere
+		os.MkdirAll(filepath.Join(dir, "data"), 0o700)
+		if d0, err := db.Open(filepath.Join(dir, "data", "real.db"), kek, audit.New(io.Discard)); err == nil {
+			d0.Put(db.Caller{Permissions: acl.Rules{{Action: []acl.Action{"put"}, Secret: []acl.Secret{"*"}}}}, "moved", []byte("before the move"))
+			if os.Symlink(filepath.Join("data", "real.db"), filepath.Join(dir, "secrets.db")) == nil {
+				s.Fault("db-path-is-symlink")
+			}
+		}
+	}
 	d, err := db.Open(filepath.Join(dir, "secrets.db"), kek, audit.New(io.Discard))
 	if err != nil {
 		s.Fail("harness", err.Error())
@@ -233,8 +244,20 @@ func Run(s *kernel.Sim) *World {
 	w.tracef("config script=%v stall=%v", w.Bucket.Script, w.Bucket.StallD)
 	s.SetFree(false)
 
+	// schedule
+	horizon := time.Duration(t.Range(40, 240)) * time.Minute
 	ctx, cancel := context.WithCancel(context.Background())
 	defer cancel()
+	// the server's context may also end by itself, at a deadline (a server
+	// started with a time limit); never at the same instant as one of the
+	// loop's timers (Go's select is random among ready cases)
+	var deadlineAt time.Duration = -1
+	if t.Bool(1, 4) {
+		deadlineAt = horizon + 7*time.Second + 137*time.Millisecond
+		var c2 context.CancelFunc
+		ctx, c2 = context.WithDeadline(ctx, time.Now().Add(deadlineAt))
+		defer c2()
+	}
 	var loopDone bool
 	var loopDoneT time.Duration
 	var loopTask *kernel.Task
@@ -246,8 +269,6 @@ func Run(s *kernel.Sim) *World {
 		loopDoneT = s.Now()
 	})
 
-	// schedule
-	horizon := time.Duration(t.Range(40, 240)) * time.Minute
 	cancelAt := horizon
 	earlyCancel := t.Bool(1, 3)
 	quietFor := time.Duration(t.Range(4, 35)) * time.Minute
@@ -269,6 +290,13 @@ func Run(s *kernel.Sim) *World {
 
 	for step := 0; step < 6000 && !s.Failed(); step++ {
 		w.snapshotFile()
+		if !cancelled && ctx.Err() != nil {
+			// the deadline of the server's context has passed
+			cancelled = true
+			cancelT = deadlineAt
+			w.tracef("the server's context reached its deadline")
+			s.Fault("server-context-deadline")
+		}
 		if loopDone {
 			break
 		}
@@ -366,7 +394,7 @@ func Run(s *kernel.Sim) *World {
 					s.Advance(0)
 				}})
 			}
-			if !cancelled && s.Now() >= cancelAt {
+			if !cancelled && s.Now() >= cancelAt && deadlineAt < 0 {
 				acts = append(acts, act{30, func() {
 					cancelled = true
 					cancelT = s.Now()
